@@ -12,6 +12,14 @@ Tie to the source:
      measure_nsite_exact) must reproduce the reference to 1e-8, the identity must measure 1.
      A measurement whose INTERNAL boundary-MPS truncation binds (recorded through the discarded weight reported by
      `mps.zipper`) is outside "contracted without truncation" and is skipped with a count.
+     Explored regions added after seeded-defect review: (i) `EnvBoundaryMPS(opts_var=...)` — the options of the variational
+     refinement incl. those that keep compression_'s default normalize=True (every boundary MPS normalised, each column /
+     row with its own norm), `measure_2site(opts_var=...)`, `measure_1site` with a dict site -> list of operators;
+     (ii) 'rich' states (every species at half filling, a gate on every bond) on which correlators of many operators do
+     not vanish by particle counting, probed with words of >= 3 charged operators (4 and 6 in U(1)) whose Jordan-Wigner
+     strings overlap (accumulated charges +-2, different species on one leg), also with repeated sites, chosen with the
+     help of the dense reference so that the exact value is non-zero: measure_nsite (CTM, boundary MPS),
+     measure_nsite_exact, measure_2x2.
  (b) NTU bond metrics of every cluster type on every bond: anti-Hermitian part and smallest eigenvalue at round-off;
      one `evolution_step_` with a truncation that does not bind: dense state == dense state of the untruncated
      `apply_gate_` up to a scalar, `truncation_error` <= 1e-8; reported nonhermitian_part/min_eigenvalue at round-off.
@@ -20,7 +28,9 @@ Tie to the source:
      `invSign` and the harness' own inversion parity), the bookkeeping of `DoublePepsTensor.add_charge_swaps_` on
      scripts of calls, and the executable specification `expect` vs the NumPy reference on exact integer data.
  (d) contracts: the NumPy reference itself is validated per case (dense state of the circuit recomputed with
-     expm(-step*H) in Jordan–Wigner form; on-site operator algebra).
+     expm(-step*H) in Jordan–Wigner form; on-site operator algebra); a DoublePepsTensor with PENDING charge swaps (random
+     scripts of add_charge_swaps_ on random tensors with multi-charge legs) equals the tensor with the swap gates applied
+     explicitly leg by leg (fuse_layers compared) — when only this contract breaks, `search` hunts for a wrong expectation value.
 """
 import math
 import time
@@ -527,7 +537,8 @@ def make_env(kind, psi, spec):
 # boundary MPS is normalised and each column / row carries its own norm (every measure_* must normalise consistently).
 BD_OPTS_VAR = [None, None, None,
                {"max_sweeps": 2}, {"max_sweeps": 1}, {"max_sweeps": 1, "normalize": True}, {"max_sweeps": 3, "method": "2site"},
-               {"max_sweeps": 2, "normalize": False}, {"max_sweeps": 1, "normalize": False, "method": "2site"}]
+               {"max_sweeps": 2, "normalize": False}, {"max_sweeps": 1, "normalize": False, "method": "2site"},
+               {"max_sweeps": 4, "overlap_tol": 1e-12}]
 
 
 def opts_var_class(ov):
@@ -635,15 +646,14 @@ def charged_word(rng, fam, m, tries=60):
 
 
 def overlap_candidate(rng, fam, dense, pool, kmax):
-    """one many-operator word on pairwise distinct sites of `pool`: m >= 3 charged operators (their Jordan-Wigner strings
-    overlap: partial sums of the charges along the fermionic order reach values other than 0, +-1, and different operators
-    contribute different charges to the same tensor) + possibly a few neutral ones.  With probability 0.6 equal operators
-    sit on consecutive sites of the fermionic order ('stacked': equal-sign strings pile up); the order of the operators in
-    the product is random."""
-    kmax = min(kmax, len(pool))
+    """one many-operator word on sites of `pool`: m >= 3 charged operators + possibly a few neutral ones.  The sites are
+    pairwise distinct, or (probability 0.3; spinful fermions 0.5) drawn with repetition: operators on one site are multiplied
+    and their charges add up (on-site pairs c+_up c+_dn).  With probability 0.6 equal operators sit on consecutive sites of
+    the fermionic order ('stacked': equal-sign Jordan-Wigner strings pile up); the order of the operators in the product is
+    random."""
     word = None
     for _ in range(20):
-        m = rng.choice([3, 4, 4, 4, 5, 6])
+        m = rng.choice([3, 4, 4, 4, 5, 6, 6])
         if m <= kmax:
             word = charged_word(rng, fam, m)
         if word:
@@ -652,15 +662,20 @@ def overlap_candidate(rng, fam, dense, pool, kmax):
         return None
     even = [nm for nm in sorted(fam.opt) if fam.n[nm] == fam.zero and nm != "I"]
     extra = [rng.choice(even) for _ in range(rng.choice([0, 0, 1, 2]))][:kmax - len(word)] if even else []
-    ss = sorted(rng.sample(pool, len(word) + len(extra)), key=lambda x: dense.rank[tuple(x)])
+    k = len(word) + len(extra)
+    if k <= len(pool) and rng.random() >= (0.5 if fam.kind == "sff" else 0.3):
+        ss = rng.sample(pool, k)
+    else:
+        ss = [rng.choice(pool) for _ in range(k)]
+    ss = sorted(ss, key=lambda x: dense.rank[tuple(x)])
     if rng.random() < 0.6:
         names = sorted(set(word))
         rng.shuffle(names)
         word = [nm for g in names for nm in word if nm == g]
-        slots = sorted(rng.sample(range(len(ss)), len(word)))
+        slots = sorted(rng.sample(range(k), len(word)))
         place = {i: nm for i, nm in zip(slots, word)}
         it = iter(extra)
-        pairs = [(place[i] if i in place else next(it), ss[i]) for i in range(len(ss))]
+        pairs = [(place[i] if i in place else next(it), ss[i]) for i in range(k)]
     else:
         full = word + extra
         rng.shuffle(full)
@@ -669,19 +684,38 @@ def overlap_candidate(rng, fam, dense, pool, kmax):
     return [a for a, _ in pairs], [list(b) for _, b in pairs]
 
 
-def overlap_word(rng, fam, guide, pool, kmax=6, tries=12, floor=1e-4):
+def string_overlap(fam, dense, names, sites):
+    """largest |charge| carried by the superposed Jordan-Wigner strings of a word: max over the cuts of the fermionic order
+    of sum_j |sum of the charges of all operators behind the cut|_j.  <= 1 for two-point functions and for alternating words
+    like c+ c c+ c in site order; >= 2 when equal-sign strings overlap or different species pile up on one link."""
+    order = sorted(range(len(names)), key=lambda i: dense.rank[tuple(sites[i])])
+    best = 0
+    for cut in range(1, len(order)):
+        if dense.rank[tuple(sites[order[cut]])] == dense.rank[tuple(sites[order[cut - 1]])]:
+            continue
+        tot = [0] * len(fam.zero)
+        for i in order[cut:]:
+            tot = [a + b for a, b in zip(tot, fam.n[names[i]])]
+        best = max(best, sum(abs(x) for x in tot))
+    return best
+
+
+def overlap_word(rng, fam, guide, pool, kmax=6, tries=16, floor=1e-4):
     """reference-guided choice: the first candidate whose dense expectation value is not (numerically) zero — a correlator
-    that vanishes by particle-number counting cannot reveal a wrong sign — else the largest one seen"""
+    that vanishes by particle-number counting cannot reveal a wrong sign — and whose strings overlap (string_overlap >= 2);
+    else the best one seen"""
     dense, v = guide
-    best, best_abs = None, -1.0
+    best, best_score = None, (-1, -1.0)
     for _ in range(tries):
         cand = overlap_candidate(rng, fam, dense, pool, kmax)
         if cand is None:
             continue
         a = abs(dense.expect(v, cand[0], [tuple(x) for x in cand[1]]))
-        if a > best_abs:
-            best, best_abs = cand, a
-        if a > floor:
+        ov = string_overlap(fam, dense, cand[0], cand[1])
+        score = (int(a > floor) + int(a > floor and ov >= 2), a)
+        if score > best_score:
+            best, best_score = cand, score
+        if score[0] == 2:
             break
     return best
 
@@ -738,7 +772,7 @@ def plan_probes(rng, fam, kind, spec, Nx, Ny, quick, recipe=None, guide=None):
         big = Nx * Ny >= 8
         pr = rng.choice(["corner <=", "row <="]) if big else rng.choice(["<=", "<=", "<", "row <=", "corner <="])
         probes.append({"fn": "measure_2site", "ops": pick_pair(), "dirn": dirn, "pairs": pr})
-        ov = rng.choice([None, None, {"max_sweeps": 1}, {"max_sweeps": 3}, {"max_sweeps": 2, "Schmidt_tol": 1e-10}])
+        ov = rng.choice([None, None, {"max_sweeps": 1}, {"max_sweeps": 3}, {"max_sweeps": 2, "overlap_tol": 1e-10}])
         if ov is not None:     # options of the refinement of the boundary vectors inside measure_2site
             probes[-1]["opts_var"] = ov
     if kind == "ctm" and Nx * Ny >= 3:
@@ -780,17 +814,19 @@ def plan_probes(rng, fam, kind, spec, Nx, Ny, quick, recipe=None, guide=None):
         probes.append({"fn": "measure_nsite", "ops": ["I", "I"], "sites": [list(rng.choice(sites)), list(rng.choice(sites))]})
     # many-operator correlators with overlapping fermionic strings (>= 3 charged operators on distinct sites)
     rich = bool(recipe) and recipe.get("flavour") == "rich"
-    if fam.fermionic and guide is not None and Nx * Ny >= 4 and has_lr:
-        fns = ["measure_nsite"]
+    if fam.fermionic and guide is not None and Nx * Ny >= 4:
+        plan = []
+        if has_lr:
+            plan += ["measure_nsite"] * (((4 if quick else 10) if rich else 1))
         if kind == "ctm" and Nx >= 2 and Ny >= 2:
-            fns = ["measure_nsite", "measure_nsite_exact"]
-        n_ov = ((8 if quick else 16) if rich else 2)
-        for i in range(n_ov):
+            # the exact window contraction is ~7x cheaper than the boundary-MPS based one: many more words
+            plan += ["measure_nsite_exact"] * (((14 if quick else 40) if rich else 2))
+        for fn in plan:
             cand = overlap_word(rng, fam, guide, sites)
             if cand is not None:
-                probes.append({"fn": fns[i % len(fns)], "ops": cand[0], "sites": cand[1], "overlap": True})
+                probes.append({"fn": fn, "ops": cand[0], "sites": cand[1], "overlap": True})
         if kind == "ctm" and Nx >= 2 and Ny >= 2 and rich:
-            for _ in range(2 if quick else 4):
+            for _ in range(2 if quick else 6):
                 x0, y0 = rng.randrange(Nx - 1), rng.randrange(Ny - 1)
                 win = [(x0, y0), (x0 + 1, y0), (x0, y0 + 1), (x0 + 1, y0 + 1)]
                 cand = overlap_word(rng, fam, guide, win, kmax=4)
@@ -893,6 +929,9 @@ def check_probe(ctx, fam, dense, v, recipe, kind, spec, env, probe, signs):
         if probe.get("overlap"):
             ctx.count("overlap-word:" + ("nonzero-ref" if abs(ref) > 1e-4 else "zero-ref"))
             ctx.count(f"overlap-word:charged={sum(1 for nm in names if fam.n[nm] != fam.zero)}")
+            ctx.count(f"overlap-word:string-charge={min(string_overlap(fam, dense, names, sites), 3)}")
+            if len(set(map(tuple, sites))) < len(sites):
+                ctx.count("overlap-word:repeated-site")
         ctx.extra["max_err"] = max(ctx.extra.get("max_err", 0.0), float(err)) if not (
             kind == "bd" and probe["fn"] == "measure_nn" and any(fam.odd(nm) for nm in names)) else ctx.extra.get("max_err", 0.0)
         if fam.fermionic and len(names) >= 2:
@@ -1242,6 +1281,97 @@ def correspond_swaps(ctx, quick):
                              case={"kind": "swaps", "family": fid, "calls": calls})
 
 
+PENDING_FAMS = ("sf:U1", "sf:Z2", "sff:U1xU1", "sff:U1", "sff:U1xU1xZ2")
+TOL_SWAPS = 1e-10     # a swap gate only flips signs of blocks: both sides agree exactly (observed 0.0)
+
+
+def pending_swaps_case(rng, fid):
+    """JSON of one random two-layer tensor with a script of add_charge_swaps_ calls"""
+    fam = family(fid)
+    moduli = {"Z2": [2], "U1": [0], "U1xU1": [0, 0], "U1xU1xZ2": [0, 0, 2]}[fam.sym]
+
+    def rcharge():
+        t = [rng.randint(-1, 1) if m == 0 else rng.randrange(m) for m in moduli]
+        if fam.sym == "U1xU1xZ2":
+            t[2] = (t[0] + t[1]) % 2
+        return t
+
+    legs = []
+    for _ in range(4):
+        ts = []
+        for _ in range(rng.randint(2, 3)):
+            t = rcharge()
+            if t not in ts:
+                ts.append(t)
+        legs.append({"t": sorted(ts), "D": [rng.randint(1, 2) for _ in ts]})
+    opch = sorted({fam.n[nm] for nm in fam.opt if fam.n[nm] != fam.zero})
+    calls = []
+    for _ in range(rng.randint(1, 6)):
+        k = rng.randint(1, 3)
+        calls.append({"charge": list(rng.choice(opch)), "axes": [rng.choice(SWAP_AXES) for _ in range(k)]})
+    trans = rng.choice([(0, 1, 2, 3), (1, 2, 3, 0), (2, 3, 0, 1), (3, 0, 1, 2), (0, 3, 2, 1), (1, 0, 3, 2), (2, 1, 0, 3), (3, 2, 1, 0)])
+    return {"kind": "pending-swaps", "family": fid, "seed": rng.randrange(1 << 30), "legs": legs, "calls": calls,
+            "trans": list(trans), "op": rng.choice([None, None] + sorted(fam.opt))}
+
+
+def check_pending_swaps(ctx, case):
+    """contract behind every fermionic measurement: a DoublePepsTensor with PENDING charge swaps (add_charge_swaps_: "charges
+    to be swapped with some internal legs during contraction") is the same two-layer tensor as the one whose bra / ket
+    tensors had the swap gates applied explicitly, one leg and one charge at a time (Tensor.swap_gate(axis, charge))."""
+    import yastn
+    from yastn.tn.fpeps._doublePepsTensor import DoublePepsTensor, _allowed_transpose
+    fam = family(case["family"])
+    cfg = fam.config
+    trans = tuple(case["trans"])
+    if trans not in _allowed_transpose:
+        trans = (0, 1, 2, 3)
+    cfg.backend.random_seed(case["seed"])
+    sig = (-1, 1, 1, -1)
+    legs = [yastn.Leg(cfg, s=sg, t=[tuple(t) for t in lg["t"]], D=tuple(lg["D"])) for sg, lg in zip(sig, case["legs"])]
+    try:
+        ket = yastn.rand(cfg, legs=legs + [fam.leg], n=cfg.sym.zero(), dtype="complex128")
+        bra = yastn.rand(cfg, legs=legs + [fam.leg], n=cfg.sym.zero(), dtype="complex128")
+    except yastn.YastnError:
+        ctx.count("pending-swaps:no-block")
+        return
+    if ket.size == 0 or bra.size == 0:
+        ctx.count("pending-swaps:no-block")
+        return
+    op = fam.opt[case["op"]] if case.get("op") else None
+    T = DoublePepsTensor(bra=bra, ket=ket, trans=trans, op=op)
+    B, K = bra, ket
+    for c in case["calls"]:
+        T.add_charge_swaps_(tuple(c["charge"]), axes=list(c["axes"]))
+        for ax in c["axes"]:
+            if ax[0] == "b":
+                B = B.swap_gate(axes=int(ax[1]), charge=tuple(c["charge"]))
+            else:
+                K = K.swap_gate(axes=int(ax[1]), charge=tuple(c["charge"]))
+    try:
+        real = T.fuse_layers()
+        ref = DoublePepsTensor(bra=B, ket=K, trans=trans, op=op).fuse_layers()
+        nr = float(ref.norm())
+        err = float((real - ref).norm()) / (nr if nr > 0 else 1.0)
+    except yastn.YastnError as e:
+        ctx.fail("contract", "c12:contract:pending-swaps", f"fuse_layers of a DoublePepsTensor with pending swaps raised: {e}", case=case)
+        return
+    ctx.count("contract:pending-swaps")
+    ctx.count(f"pending-swaps:distinct-charges={min(len({tuple(v) for v in T.swaps.values()}), 3)}")
+    ctx.extra["max_pending_swaps_defect"] = max(ctx.extra.get("max_pending_swaps_defect", 0.0), err)
+    if not (err <= TOL_SWAPS):
+        ctx.fail("contract", "c12:contract:pending-swaps",
+                 f"DoublePepsTensor ({case['family']}) with pending swaps {dict(T.swaps)} differs from the tensor with the swap gates applied "
+                 f"explicitly leg by leg: relative difference of fuse_layers() = {err:.3g}", case=case)
+
+
+def contract_pending_swaps(ctx, quick):
+    for fid in PENDING_FAMS:
+        for _ in range(30 if quick else 200):
+            case = pending_swaps_case(ctx.rng, fid)
+            ctx.case(case, nontrivial=len(case["calls"]) >= 2, sample_every=197)
+            check_pending_swaps(ctx, case)
+
+
 def correspond_expect(ctx, quick):
     """the Lean executable specification `expect` vs the NumPy reference on exact (Gaussian integer) data"""
     if not ctx.drv:
@@ -1323,6 +1453,10 @@ def thorough_plan(rng):
     plan += [("sf:U1", 3, 3, "full"), ("sf:Z2", 3, 3, "tree"), ("s12:Z2", 3, 3, "full"), ("sf:Z2", 3, 3, "full"),
              ("sf:U1", 2, 4, "tree"), ("sf:Z2", 4, 2, "tree"), ("s12:dense", 2, 4, "full"), ("sf:U1", 4, 2, "full"),
              ("s12:U1", 3, 3, "tree")]
+    # 'rich' states (half filling, a gate on every bond): many-operator correlators do not vanish
+    plan += [("sf:Z2", 2, 3, "rich"), ("sf:Z2", 3, 2, "rich"), ("sf:U1", 3, 3, "rich"), ("sf:U1", 2, 4, "rich"),
+             ("sff:U1", 2, 2, "rich"), ("sff:U1xU1xZ2", 2, 2, "rich"), ("sff:Z2", 2, 2, "rich"), ("sff:U1xU1", 2, 3, "rich"),
+             ("sff:U1", 3, 2, "rich"), ("s12:Z2", 2, 3, "rich")]
     return plan
 
 
@@ -1334,13 +1468,19 @@ def run(ctx):
                 "recipe stored as JSON) in spinless/spinful fermions and spin-1/2; every environment (EnvBoundaryMPS with a random "
                 "set-up, EnvCTM after outward expansion, EnvBP on loop-free bond graphs) is probed with measure_1site/nn/2site/nsite "
                 "(+CTM 2x2/line/nsite_exact) on random neutral operator words incl. odd fermionic operators, repeated sites and "
-                "orders with i>j, against a NumPy Jordan-Wigner reference on to_tensor(); NTU metrics of all six cluster types; one "
+                "orders with i>j, and — on 'rich' half-filled states with a gate on every bond — words of >= 3 charged operators with "
+                "overlapping strings, against a NumPy Jordan-Wigner reference on to_tensor(); boundary MPSs built with random opts_var "
+                "(normalised / un-normalised refinement); NTU metrics of all six cluster types; one "
                 "evolution_step_ with non-binding truncation.  A case is non-trivial if its circuit has a two-site gate; distinct by recipe")
     ctx.notes += [
         "domain restrictions of the probes (observations on the unchanged tree, no alarm): EnvCTM.measure_nsite_exact / measure_2x2 are "
         "probed on lattices with Nx, Ny >= 2 only (on 1xN / Nx1 lattices they enlarge the window beyond the lattice and raise KeyError); "
         "EnvBP.measure_nn on tree-cut lattices is probed on the bonds of the tree only (two sites joined by a D=1 bond but correlated "
         "through the rest of the tree get the product of their marginals); EnvBP offers measure_1site / measure_nn only",
+        "opts_var passed to measure_2site is restricted to max_sweeps / overlap_tol: it is forwarded to mps.compression_ together with "
+        "method= and normalize= (a dict containing those keys is a TypeError by construction), and Schmidt_tol makes "
+        "mps.compression_ raise ValueError('max() iterable argument is empty') on the one-site boundary MPSs of 1xN lattices "
+        "(observation about mps.compression_, outside C12; not probed)",
     ]
     ctx.assumptions += [
         "to_tensor() returns the dense state in the PEPS fermionic order (property C11); validated per case against an independent NumPy "
@@ -1357,6 +1497,7 @@ def run(ctx):
     for fid in sorted({p[0] for p in plan}):
         contracts(ctx, family(fid))
     correspond_swaps(ctx, quick)
+    contract_pending_swaps(ctx, quick)
     correspond_expect(ctx, quick)
     done = 0
     for (fid, Nx, Ny, flavour) in plan:
@@ -1383,10 +1524,45 @@ def run(ctx):
     ctx.extra["tolerances"] = {"expectation": TOL, "metric": TOL_METRIC, "truncation_error": TOL_TRUNC, "binding": BIND}
 
 
+SEARCH_PLAN = [("sf:U1", 3, 2), ("sf:U1", 2, 3), ("sff:U1xU1", 2, 2), ("sff:U1", 2, 2), ("sf:Z2", 2, 3), ("sff:U1xU1xZ2", 2, 2),
+               ("sf:U1", 2, 2), ("sff:Z2", 2, 2)]
+
+
 def search(ctx, broken, budget_s):
-    """every oracle of run() is already evaluated eagerly on the real code; nothing more targeted exists for a broken
-    specification theorem (the environments are not modelled)"""
-    ctx.notes.append("failing-input search = the eager differential pass of run() (all oracles act on the real code)")
+    """every oracle of run() is already evaluated eagerly on the real code.  When only a contract / correspondence is
+    broken (e.g. pending charge swaps of a two-layer tensor), hunt for a concrete wrong expectation value where such a
+    defect shows: many-operator correlators with overlapping strings on 'rich' states, cheap exact CTM windows."""
+    from harness import core
+    import yastn.tn.fpeps as fpeps
+    t_end = time.time() + 0.8 * budget_s
+    rng = ctx.rng
+    rounds = 0
+    while time.time() < t_end and not any(f.concrete and f.key != KEY_BD_NN_ODD for f in ctx.findings):
+        fid, Nx, Ny = SEARCH_PLAN[rounds % len(SEARCH_PLAN)]
+        rounds += 1
+        fam = family(fid)
+        recipe = make_rich_recipe(rng, fid, Nx, Ny)
+        try:
+            with core.time_limit(CASE_LIMIT_QUICK):
+                dense = Dense(fam, Nx, Ny)
+                g, psi = build_state(recipe)
+                v = dense_of_peps(fam, psi)
+                if not np.isfinite(v).all() or np.linalg.norm(v) == 0:
+                    continue
+                spec = {"init": "eye", "expand": max(Nx, Ny) - 1}
+                env, _ = make_env("ctm", psi, spec)
+                sites = f_sites(Nx, Ny)
+                for i in range(40):
+                    cand = overlap_word(rng, fam, (dense, v), sites)
+                    if cand is None:
+                        continue
+                    probe = {"fn": "measure_nsite_exact" if i % 4 else "measure_nsite", "ops": cand[0], "sites": cand[1], "overlap": True}
+                    check_probe(ctx, fam, dense, v, recipe, "ctm", spec, env, probe, [])
+                    ctx.count("search:probes")
+        except core.CaseTimeout:
+            ctx.count("case-timeout")
+    ctx.notes.append(f"failing-input search: {rounds} rich states probed with many-operator correlators "
+                     "(the eager differential pass of run() had found no concrete failing input)")
 
 
 def replay(ctx, obj):
@@ -1415,6 +1591,8 @@ def replay(ctx, obj):
     elif kind == "evolution":
         g, psi = build_state(case["recipe"])
         check_evolution(ctx, family(case["recipe"]["family"]), case["recipe"], psi, case["gate"], case["which"])
+    elif kind == "pending-swaps":
+        check_pending_swaps(ctx, case)
     elif kind == "sign":
         correspond_signs(ctx, {(case["family"], case["dims"][0], case["dims"][1]): [(case["ops"], [tuple(s) for s in case["sites"]])]})
     else:
